@@ -422,3 +422,95 @@ theorem wf_of_wfb {cs : Array Call} (h : wfb cs = true) : WF cs := by
     exact ⟨kp, rfl, by simpa using this⟩
 
 end EinoV.C09.Flight
+
+namespace EinoV.C09.Hold
+
+/-- without a lock on the compiled object a step of run `i` touches run `i` only, never moves a run
+    backwards, and moves a run other than the parked one forward until it has returned -/
+theorem step_nolock (n parked : Nat) (st : St) (i j : Nat) :
+    st.pc j ≤ ((step false n parked st i).pc j) ∧
+    (j = i → i < n → i ≠ parked → st.pc i < 2 → (step false n parked st i).pc i = st.pc i + 1) := by
+  unfold step
+  by_cases hn : n ≤ i
+  · simp [hn]; intro _ h; omega
+  · simp only [hn, if_false, Bool.false_and, Bool.false_eq_true]
+    split
+    · rename_i h0
+      refine ⟨?_, ?_⟩
+      · by_cases e : j = i
+        · subst e; simp [upd, h0]
+        · simp [upd, e]
+      · intro _ _ _ _; simp [upd, h0]
+    · rename_i h1
+      by_cases hp : (i == parked && !othersBack n parked st) = true
+      · simp only [hp, if_true]
+        refine ⟨Nat.le_refl _, ?_⟩
+        intro _ _ hne _
+        simp only [Bool.and_eq_true, beq_iff_eq] at hp
+        exact absurd hp.1 hne
+      · simp only [hp]
+        refine ⟨?_, ?_⟩
+        · by_cases e : j = i
+          · subst e; simp [upd, h1]
+          · simp [upd, e]
+        · intro _ _ _ _; simp [upd, h1]
+    · rename_i h0 h1
+      refine ⟨Nat.le_refl _, ?_⟩
+      intro _ _ _ hlt
+      exfalso
+      have : st.pc i = 0 ∨ st.pc i = 1 := by omega
+      rcases this with h | h
+      · exact h0 h
+      · exact h1 h
+
+theorem exec_mono (n parked : Nat) (l : List Nat) : ∀ (st : St) (j : Nat),
+    st.pc j ≤ (exec false n parked l st).pc j := by
+  induction l with
+  | nil => intro st j; exact Nat.le_refl _
+  | cons i rest ih =>
+    intro st j
+    exact Nat.le_trans (step_nolock n parked st i j).1 (ih _ j)
+
+/-- a run other than the parked one that is scheduled `k` more times has advanced by `k` or returned -/
+theorem exec_advance (n parked j : Nat) (hj : j < n) (hne : j ≠ parked) (l : List Nat) :
+    ∀ st : St, min 2 (st.pc j + l.count j) ≤ (exec false n parked l st).pc j := by
+  induction l with
+  | nil => intro st; simp [exec]; omega
+  | cons i rest ih =>
+    intro st
+    simp only [exec]
+    have hm := (step_nolock n parked st i j).1
+    have := ih (step false n parked st i)
+    by_cases e : i = j
+    · subst e
+      have hc : (i :: rest).count i = rest.count i + 1 := by simp
+      rw [hc]
+      by_cases hlt : st.pc i < 2
+      · have := (step_nolock n parked st i i).2 rfl hj hne hlt
+        omega
+      · omega
+    · have hc : (i :: rest).count j = rest.count j := by simp [e]
+      rw [hc]; omega
+
+theorem count_range (j : Nat) : ∀ n, (List.range n).count j = if j < n then 1 else 0 := by
+  intro n
+  induction n with
+  | zero => simp
+  | succ m ih =>
+    rw [List.range_succ, List.count_append, ih]
+    by_cases e : j = m
+    · subst e; simp
+    · have : ¬ m = j := fun x => e x.symm
+      simp [this]
+      split <;> split <;> omega
+
+theorem count_othersTwice (n parked j : Nat) (hj : j < n) (hne : j ≠ parked) :
+    (othersTwice n parked).count j = 2 := by
+  unfold othersTwice
+  simp only [List.count_append]
+  have : ((List.range n).filter (· != parked)).count j = 1 := by
+    rw [List.count_filter (by simpa using hne), count_range]
+    simp [hj]
+  omega
+
+end EinoV.C09.Hold
